@@ -47,6 +47,47 @@ pub fn run() {
             used[((w.bits() >> 1) & 0xF) as usize] += 1;
         }
     }
+    // the function index of the statement is the hardware select code: the variant listed under index i
+    // must carry the discriminant i, and the decoder used by the machine (Signals::alu_select, from the
+    // MALUS bits of the current control word) must yield that variant for every programmed control word
+    for i in 0..16u8 {
+        if select(i) as u8 != i {
+            ctx.violation(format!("alu/{}/select-code", ALU_NAMES[i as usize]), format!("function {} has select code {:#06b}, documented {:#06b}", ALU_NAMES[i as usize], select(i) as u8, i), case_line(i, 0, 0, false));
+        }
+    }
+    {
+        let mut m = crate::mach::free();
+        let mut decoded = 0u64;
+        for (addr, w) in MicroprogramRam::CONTENT.iter().enumerate() {
+            if w.bits() == 0 {
+                continue;
+            }
+            let code = ((w.bits() >> 1) & 0xF) as u8;
+            let r = mc::catch(|| {
+                m.raw_mut().verif_force_control(addr, 0x02, AluOutput::from_input(&AluInput::new(0, 1, false), &AluSelect::B), 0, false);
+                m.signals().alu_select()
+            });
+            decoded += 1;
+            match r {
+                Ok(f) if f == select(code) => {}
+                Ok(f) => ctx.violation(format!("alu/{}/decode", ALU_NAMES[code as usize]), format!("control word {:#05x} has MALUS bits {:#06b} ({}), the machine decodes {:?}", addr, code, ALU_NAMES[code as usize], f), case_line(code, 0, 0, false)),
+                Err(p) => ctx.violation(format!("panic/{}", p.file()), format!("decoding the ALU function of control word {:#05x}: panic at {}: {}", addr, p.site(), p.msg), case_line(code, 0, 0, false)),
+            }
+        }
+        ctx.set("control_words_decoded", decoded);
+    }
+    // the other public way to obtain an input: AluInput::default() is the input (0, 0, carry clear)
+    for i in 0..16u8 {
+        let d = AluInput::default();
+        let via_default = mc::catch(|| {
+            let o = AluOutput::from_input(&d, &select(i));
+            (o.output(), o.carry_out(), o.zero_out(), o.negative_out())
+        });
+        let exp = ref_alu(i, 0, 0, false);
+        if (d.input_a(), d.input_b(), d.carry_in()) != (0, 0, false) || via_default.as_ref().ok() != Some(&exp) {
+            ctx.violation(format!("alu/{}/default-input", ALU_NAMES[i as usize]), format!("AluInput::default() reads ({}, {}, {}) and gives {:?}, expected {:?}", d.input_a(), d.input_b(), d.carry_in(), via_default, exp), case_line(i, 0, 0, false));
+        }
+    }
     // enumerate: one block per (sel, a)
     struct Out {
         points: u64,
